@@ -156,3 +156,7 @@ MANIFEST = {
     "technique": "machine-checked proof in Coq (composition of C12's round trip with the query model) + the extracted decoder as oracle on every implementation response",
     "design_ref": "DESIGN.md section 4 (C02)",
 }
+
+
+# pkg-tsigw: theorems about the TSIG-bearing responses of the extended composed model (Model/ServerWT.v), append-only
+CHECK["theorems"] = list(CHECK["theorems"]) + ['c02_wellformed_tsig_partial', 'c02_tsig_record_partial']
